@@ -249,12 +249,14 @@ def run_c06(ctx):
     bases = []
     for i in range(base):
         sc = gen_scenario(rng, i)
-        if sc["bak"] in ("=in", "=out"):
-            sc["bak"] = "song.bak"
+        if sc["bak"] in ("=in", "=out") and i % 3:
+            sc["bak"] = "song.bak"          # (one clash in three is kept: it must be refused before anything is touched)
         if sc["content_label"].startswith("invalid"):
             sc["content"] = lc.base_text(sc["ext"], "t").encode("ascii")
-        if not sc["edits"]:
-            sc["edits"] = lc.gen_edits(rng, 2)
+        if not sc["edits"] and i % 4:
+            sc["edits"] = lc.gen_edits(rng, 2)      # (every fourth empty script stays empty: a save that changes nothing)
+        elif not sc["edits"] and sc["bak"] == "":
+            sc["bak"] = "song.bak"
         bases.append(sc)
     for sc in bases:
         # (1) an exception of each class at every position of the edit script
